@@ -620,7 +620,8 @@ theorem ringPos_eq_source (p : Pt) (ring : List Pt) : ringPos p ring = Gen.coord
   Geo.Proofs.TRANCoordPos.ringPos_eq p ring
 
 /-- [T] (translator tie) every `calculate_coordinate_position` body of coordinate_position.rs (Coord, Point, Line,
-LineString, Triangle, Rect, MultiPoint, Polygon with its loop over the interiors, MultiLineString, MultiPolygon),
+LineString, Triangle, Rect, MultiPoint, Polygon with its loop over the interiors, MultiLineString, MultiPolygon,
+GeometryCollection — the recursive call through the `Geometry` enum being `calcPos` itself),
 regenerated on this run as a state transformer `PosAcc → PosAcc` (`*is_inside = true`, `*boundary_count += 1`, `return;`,
 nested calls on the same accumulator), equals the clause of the hand-written model `calcPos`. -/
 theorem calculateCoordinatePosition_eq_source :
@@ -633,14 +634,16 @@ theorem calculateCoordinatePosition_eq_source :
     (∀ qs p acc, calcPos (.multiPoint qs) p acc = Gen.multiPointCalc qs p acc) ∧
     (∀ poly p acc, calcPolygon poly p acc = Gen.polygonCalc poly p acc) ∧
     (∀ ls p acc, calcPos (.multiLineString ls) p acc = Gen.multiLineStringCalc ls p acc) ∧
-    (∀ ps p acc, calcMultiPolygon ps p acc = Gen.multiPolygonCalc ps p acc) :=
+    (∀ ps p acc, calcMultiPolygon ps p acc = Gen.multiPolygonCalc ps p acc) ∧
+    (∀ gs p acc, calcPos (.collection gs) p acc = Gen.geometryCollectionCalc calcPos gs p acc) :=
   ⟨Geo.Proofs.TRANCoordPos.calcPoint_eq, Geo.Proofs.TRANCoordPos.calcPoint_eq_point,
    Geo.Proofs.TRANCoordPos.calcLine_eq, Geo.Proofs.TRANCoordPos.calcLineString_eq,
    Geo.Proofs.TRANCoordPos.calcTriangle_eq, Geo.Proofs.TRANCoordPos.calcRect_eq,
    fun qs p acc => by simp only [calcPos]; exact Geo.Proofs.TRANCoordPos.calcMultiPoint_eq qs p acc,
    Geo.Proofs.TRANCoordPos.calcPolygon_eq,
    fun ls p acc => by simp only [calcPos]; exact Geo.Proofs.TRANCoordPos.calcMultiLineString_eq ls p acc,
-   Geo.Proofs.TRANCoordPos.calcMultiPolygon_eq⟩
+   Geo.Proofs.TRANCoordPos.calcMultiPolygon_eq,
+   fun gs p acc => by simp only [calcPos]; exact Geo.Proofs.TRANCoordPos.calcPosList_eq gs p acc⟩
 
 /-- [T] (translator tie) the provided trait method `coordinate_position` (fresh accumulator, mod-2 rule on the
 boundary count, then `is_inside`) regenerated from its Rust body, applied to the model's accumulator pass. -/
